@@ -601,3 +601,57 @@ Proof. intro H. cbn. unfold interp_code. destruct (N.eqb c invalid_credentials) 
 
 Lemma misleading_replica_silent s ps u pw : try_patterns interp_code s SMisleading ps u pw = None.
 Proof. apply try_patterns_silent. discriminate. Qed.
+
+(* ------------------------------------------------------------------ acceptance refreshes WHATEVER was stored *)
+(* After a login that a replica answered and the directory accepted (primary writable), the hash
+   that decides during an outage is the hash of the password just accepted - whatever the stores
+   held for the user before (nothing, the hash of a replaced password, a record written a second
+   ago, a tampered row): the row GetSigned yields is the new record, and if from then on no replica
+   answers, a login of the user is accepted for exactly that password. *)
+Definition with_servers (s : pstate) (svs : list status) : pstate :=
+  mk_pstate (st s) (dir s) svs (jwss s) (acct s) (style s) (extra_patterns s) (homes s).
+
+Lemma first_answer_all_silent s svs u pw : ~ In SUp svs -> first_answer s svs u pw = None.
+Proof.
+  induction svs as [|sv r IH]; intro H; [reflexivity|].
+  unfold first_answer in *. cbn [first_answer_gen].
+  rewrite try_patterns_silent by (intro E; apply H; left; exact E).
+  apply IH. intro I. apply H. right. exact I.
+Qed.
+
+Lemma try_patterns_with_servers s svs sv ps u pw :
+  try_patterns interp_code (with_servers s svs) sv ps u pw = try_patterns interp_code s sv ps u pw.
+Proof. induction ps as [|p r IH]; [reflexivity|]. cbn [try_patterns]. rewrite IH. reflexivity. Qed.
+
+Lemma refresh_whatever_was_stored s u pw :
+  In SUp (servers s) -> dir_accepts s u pw = true -> writable (st s) = true ->
+  let s' := fst (login s u pw) in
+  snd (login s u pw) = true /\
+  get_pw true s' u = GOk (mk_jws true u pw (now (st s)) (now (st s) + 96 * 3600)) /\
+  forall svs pw', ~ In SUp svs -> snd (login (with_servers s' svs) u pw') = N.eqb pw pw'.
+Proof.
+  intros Hup Hacc W s'.
+  destruct (refreshes s u pw Hup Hacc W) as [HP [HC HJ]].
+  fold s' in HP, HC, HJ.
+  assert (Hnow : now (st s') = now (st s)).
+  { unfold s', login, login_gen. fold (first_answer s (servers s) u pw). rewrite (first_answer_in s _ u pw Hup), Hacc. cbn [fst].
+    unfold refresh. rewrite W. cbn [st]. apply now_upsert. }
+  assert (G : get_pw true s' u = GOk (mk_jws true u pw (now (st s)) (now (st s) + 96 * 3600))).
+  { unfold get_pw, get_signed.
+    assert (A : aget skey_eqb (u, pw_type) (signed (if mode_eqb (pmode (st s')) Up then primary (st s') else cache (st s'))) =
+                Some (mk_srow (N.of_nat (length (jwss s))) (now (st s) + cache_secs) (now (st s)))).
+    { destruct (mode_eqb (pmode (st s')) Up); assumption. }
+    rewrite A. unfold unexpired. cbn [sr_exp sr_data]. rewrite Hnow.
+    replace (now (st s) <? now (st s) + cache_secs) with true by (symmetry; apply Z.ltb_lt; unfold cache_secs; lia).
+    cbv iota. cbn [sr_data]. rewrite HJ. unfold jws_valid. cbn [j_genuine j_nbf j_exp j_sub negb orb andb].
+    replace (now (st s) <=? now (st s)) with true by (symmetry; apply Z.leb_le; lia).
+    replace (now (st s) <? now (st s) + cache_secs) with true by (symmetry; apply Z.ltb_lt; unfold cache_secs; lia).
+    cbn [negb andb]. rewrite N.eqb_refl. cbn [negb]. reflexivity. }
+  split; [rewrite (verdict_final s u pw Hup); exact Hacc|].
+  split; [exact G|].
+  intros svs pw' Hd. unfold login, login_gen. cbn [servers with_servers].
+  fold (first_answer (with_servers s' svs) svs u pw'). rewrite first_answer_all_silent by exact Hd.
+  cbn [snd].
+  replace (get_pw true (with_servers s' svs) u) with (get_pw true s' u) by reflexivity.
+  rewrite G. reflexivity.
+Qed.
